@@ -100,6 +100,7 @@ CHECKS = {
         pkg="./c19", level="exploration",
         runs=[
             dict(name="scripted", run="^TestPropSendRequest$", checks=(15000, 100000), shards=(4, 16)),
+            dict(name="service", run="^TestPropServiceTimeouts$", checks=(5000, 40000), shards=(2, 8)),
             dict(name="realnats", run="^TestRealNATS$", shards=(1, 1)),
             dict(name="oldtimers", run="^TestOldTimerSemantics$", shards=(2, 4), env={"GODEBUG": "asynctimerchan=1"}),
         ],
